@@ -17,6 +17,9 @@ per-axis radii, shapes, thresholds, `max_iterations` and start pixels.
   all of them (and the eccentricity sums) are sums / the maximum over exactly the mask whose
   centre is reported, the one `refine_position_is_centroid` speaks about.
 * `refine_within_image` — the position lies in `[origin, origin + 2r] ⊆ [0, shape−1]` (used by C08).
+* `refine_moves_bounded`, `inEllipse_2d_iff`, `weights_2d` — the mask centre stays within
+  `max_iterations − 1` pixels of the start; the mask test and the size weights mean what
+  masks.py computes.
 * `refine_iter_monotone`, `refine_maxiter_stable`, `refine_converged_offcentre` — one more allowed
   iteration either changes nothing (the loop had broken) or performs exactly one more
   move-and-evaluate; a converged result is the result for every larger `max_iterations` and lies
@@ -298,6 +301,35 @@ theorem refine_converged_offcentre (thr : Rat) (img raw : Image) (radius shape :
     posAt_getD _ _ _ _ _ hi
   rw [hp]
   simpa using this
+
+/-- the reported mask centre is within `max_iterations − 1` pixels of the start on every axis
+(each iteration moves by at most one pixel per axis; used for C09's padding hypothesis) -/
+theorem refine_moves_bounded (thr : Rat) (img raw : Image) (radius shape : List Nat)
+    (maxIter : Nat) (start : List Int) (h : Inside radius shape start)
+    (i : Nat) (hi : i < radius.length) :
+    let R := refineOne thr img raw radius shape maxIter start
+    start.getD i 0 - (fuelOf maxIter : Nat) ≤ R.centre.getD i 0 ∧
+    R.centre.getD i 0 ≤ start.getD i 0 + (fuelOf maxIter : Nat) :=
+  lastCentre_near thr img _ radius shape _ start h i hi
+
+/-! ## the mask is the ellipse, in cross-multiplied integer form (2-D) -/
+
+/-- `binary_mask`'s float test `(y/ry)² + (x/rx)² ≤ 1` as the model has it (exact rationals) is the
+integer inequality `dy²·rx² + dx²·ry² ≤ ry²·rx²` (`d = array index − radius`). -/
+theorem inEllipse_2d_iff (ry rx oy ox : Nat) (hy : 0 < ry) (hx : 0 < rx) :
+    inEllipse [ry, rx] [oy, ox] = true ↔
+      rel ry oy * rel ry oy * ((rx : Int) * rx) + rel rx ox * rel rx ox * ((ry : Int) * ry)
+        ≤ (ry : Int) * ry * ((rx : Int) * rx) := by
+  have hy' : (0 : Rat) < (ry : Rat) := by exact_mod_cast hy
+  have hx' : (0 : Rat) < (rx : Rat) := by exact_mod_cast hx
+  have he : ellipseSum [ry, rx] [oy, ox] =
+      ((rel ry oy : Int) : Rat) / (ry : Rat) * (((rel ry oy : Int) : Rat) / (ry : Rat)) +
+        (((rel rx ox : Int) : Rat) / (rx : Rat) * (((rel rx ox : Int) : Rat) / (rx : Rat)) + 0) := rfl
+  unfold inEllipse
+  rw [decide_eq_true_eq, he, ellipse_cross _ _ _ _ hy' hx']
+  constructor
+  · intro h; exact_mod_cast h
+  · intro h; exact_mod_cast h
 
 /-! ## non-vacuity: a 5×5 image, radius 1, the mask moves once and converges -/
 
